@@ -503,8 +503,8 @@ class Engine:
         query, so that successive queries of one path only add their new constraints."""
         key = tuple(c.get_id() for c in pc)
         skey = tuple(sorted(key))
-        if skey in s.cache: return s.cache[skey]
-        if len(s.cache) > 150000: s.cache.clear()
+        if skey in s.cache: return s.cache[skey][:2]
+        if len(s.cache) > 60000: s.cache.clear()
         t = time.time()
         st = s.stack; k = 0; n = min(len(st), len(key))
         while k < n and st[k] == key[k]: k += 1
@@ -519,8 +519,8 @@ class Engine:
         if r == z3.unknown:
             s.solver.pop(len(st)); del st[:]
             raise Unsupported('solver unknown: ' + s.solver.reason_unknown())
-        s.cache[skey] = (r == z3.sat, m)
-        return s.cache[skey]
+        s.cache[skey] = (r == z3.sat, m, pc)      # pc kept: AST ids are only unique among live ASTs
+        return s.cache[skey][:2]
     def explore(s, body, on_path, max_paths=10**9, prefixes=None, stop_at_stack=None):
         """body(ex) runs one path; returns result. DFS with re-execution from decision prefixes.
         Returns (paths_completed, remaining_prefixes). remaining is non-empty when the deadline / max_paths / stop_at_stack hit."""
@@ -845,6 +845,16 @@ class PathExec:
             raise Unsupported(f'cast {kind} of {v!r}')
         if kind == 'IntToFloat':
             return F64(z3.fpSignedToFP(z3.RNE(), v.bv, z3.Float64()) if v.signed else z3.fpUnsignedToFP(z3.RNE(), v.bv, z3.Float64()))
+        if kind == 'FloatToFloat':
+            if ty == 'f64': return v
+            return F64(z3.fpToFP(z3.RNE(), z3.fpToFP(z3.RNE(), v.f, z3.Float32()), z3.Float64()))      # f32 values are carried as their exact f64 widening
+        if kind == 'FloatToInt':
+            nb = INT_BITS[ty]; sg = ty[0] == 'i'
+            lo, hi = (-(1 << (nb - 1)), (1 << (nb - 1)) - 1) if sg else (0, (1 << nb) - 1)
+            f = v.f; t = z3.fpRoundToIntegral(z3.RTZ(), f)
+            conv = z3.fpToSBV(z3.RTZ(), t, z3.BitVecSort(nb)) if sg else z3.fpToUBV(z3.RTZ(), t, z3.BitVecSort(nb))
+            flo, fhi = z3.FPVal(float(lo), z3.Float64()), z3.FPVal(float(hi), z3.Float64())
+            return Int(z3.If(z3.fpIsNaN(f), z3.BitVecVal(0, nb), z3.If(z3.fpLEQ(f, flo), z3.BitVecVal(lo, nb), z3.If(z3.fpGEQ(f, fhi), z3.BitVecVal(hi, nb), conv))), ty)
         raise Unsupported(f'cast kind {kind}')
     def builtin(s, fr, op, args):
         if op == 'discriminant':
@@ -1034,9 +1044,11 @@ class PathExec:
 
     # ---- calls
     def call(s, callee, args):
+        okey = strip_generics(callee)
         for rx, f in MODEL_OVERRIDES:
-            mm = rx.match(callee)
+            mm = rx.match(okey)
             if mm:
+                s.cur_callee = callee
                 r = f(s, args, mm)
                 if r is not NotImplemented:
                     s.eng.models_used.add(f.__name__); return r
